@@ -90,7 +90,21 @@ ProjSelect ==
   /\ ops' = Append(ops, "proj")
   /\ UNCHANGED <<init, shape>>
 
-Next == Skip(1) \/ Skip(2) \/ Take(1) \/ Fresh \/ ConcatEmptyAppend \/ ProjSelect
+(* `x.exclude(%two)` where nothing of x is excluded: the result is a collection of its own.  (The implementation also   *)
+(* appends the argument's items that are not in x - the recorded finding of C10 - so a result that ADOPTS the input    *)
+(* slice writes them into the cells behind it: the mutant.)                                                            *)
+ExcludeNothing ==
+  /\ Len(ops) < MaxSteps
+  /\ LET items == [j \in 1..cur.len |-> heap[cur.a][cur.off + j]] IN
+     IF Mutant = "excludeAdoptsInput" /\ cur.cap > cur.len
+     THEN /\ heap' = [heap EXCEPT ![cur.a][cur.off + cur.len + 1] = "arg"]
+          /\ cur' = [cur EXCEPT !.len = cur.len + 1]
+     ELSE /\ heap' = Append(heap, items)
+          /\ cur' = [a |-> Len(heap) + 1, off |-> 0, len |-> cur.len, cap |-> cur.len]
+  /\ ops' = Append(ops, "excl")
+  /\ UNCHANGED <<init, shape>>
+
+Next == Skip(1) \/ Skip(2) \/ Take(1) \/ Fresh \/ ConcatEmptyAppend \/ ProjSelect \/ ExcludeNothing
 Spec == Init /\ [][Next]_vars
 
 (* The property: the caller's array - items AND spare capacity - never changes. *)
